@@ -550,6 +550,18 @@ def simp(v: Any) -> Any:
     return v
 
 
+class Poison:
+    """LLVM poison (shift amount >= width, nsw/nuw overflow): not UB by itself. It propagates
+    through arithmetic, casts and the chosen arm of a select; UB is raised only when it reaches a
+    branch / switch condition, an address computation, a call argument, a return value or memory."""
+
+    def __init__(s, why: str):
+        s.why = why
+
+    def __repr__(s) -> str:
+        return f"poison({s.why})"
+
+
 class PtrIte:
     def __init__(s, c: Any, a: Any, b: Any):
         s.c, s.a, s.b = c, a, b
@@ -661,6 +673,8 @@ class Machine:
 
     # ---- memory
     def chk(s, p: Any, n: int) -> None:
+        if isinstance(p, Poison):
+            raise UB(f"access through a poison address ({p.why})")
         if not isinstance(p, Ptr):
             raise Unsupported(f"dereference of {type(p).__name__}")
         if p.r is None:
@@ -715,6 +729,10 @@ class Machine:
         return simp(e)
 
     def store(s, p: Ptr, ty: Any, v: Any) -> None:
+        if isinstance(v, Poison):
+            raise UB(f"poison stored to memory ({v.why})")
+        if isinstance(p, Poison):
+            raise UB(f"store through a poison address ({p.why})")
         if isinstance(ty, NamedT):
             ty = ty.res()
         n = s.lay.size(ty)
@@ -740,6 +758,11 @@ class Machine:
         s.mem[p.r][p.o:p.o + n] = cells
 
     def gep(s, bt: Any, base: Any, idx: List[Tuple[Any, Any]]) -> Any:
+        for _, iv in idx:
+            if isinstance(iv, Poison):
+                return iv  # the address is poison; UB only if it is dereferenced
+        if isinstance(base, Poison):
+            return base
         if isinstance(base, PtrIte):
             raise Unsupported("gep on pointer-valued ite")
         ty = bt
@@ -790,6 +813,11 @@ class Machine:
         return b.decode("latin-1")
 
     def call(s, fname: str, args: List[Any], arg_types: Optional[List[Any]] = None) -> Any:
+        if fname.startswith("@llvm.") and any(isinstance(a, Poison) for a in args):
+            bad = next(a for a in args if isinstance(a, Poison))
+            if fname.startswith(("@llvm.mem", "@llvm.va_")):
+                raise UB(f"poison passed to {fname} ({bad.why})")
+            return bad
         if fname.startswith("@llvm.memcpy") or fname.startswith("@llvm.memmove") or fname in ("@memcpy", "@memmove"):
             d, sp, n = args[0], args[1], args[2]
             if is_sym(n):
@@ -995,6 +1023,9 @@ class Machine:
             p.expect("to")
             tt = p.type()
             x = s.op(regs, m, ft, v)
+            if isinstance(x, Poison):
+                regs[dst] = x
+                return None
             if o == "bitcast":
                 regs[dst] = x
                 return None
@@ -1020,10 +1051,14 @@ class Machine:
             n = ty.n
             if isinstance(a, Ptr) or isinstance(b, Ptr):
                 raise Unsupported("integer arithmetic on pointers")
+            if isinstance(a, Poison) or isinstance(b, Poison):
+                regs[dst] = a if isinstance(a, Poison) else b
+                return None
             if o in ("shl", "lshr", "ashr"):
                 if not is_sym(b):
                     if b >= n:
-                        raise UB(f"{o} by {b} >= width {n} in {f.name}")
+                        regs[dst] = Poison(f"{o} by {b} >= width {n} in {f.name}")
+                        return None
                 else:
                     s.ub_notes.append(f"{f.name}: {o} with a symbolic amount (not checked against the width)")
             if is_sym(a) or is_sym(b):
@@ -1041,23 +1076,29 @@ class Machine:
             if o == "add":
                 r = a + b
                 if "nuw" in flags and r > mask(n):
-                    raise UB(f"add nuw overflows in {f.name}")
+                    regs[dst] = Poison(f"add nuw overflows in {f.name}")
+                    return None
                 if "nsw" in flags and not (-(1 << (n - 1)) <= sa + sb < (1 << (n - 1))):
-                    raise UB(f"add nsw overflows in {f.name}")
+                    regs[dst] = Poison(f"add nsw overflows in {f.name}")
+                    return None
             elif o == "sub":
                 r = a - b
                 if "nuw" in flags and a < b:
-                    raise UB(f"sub nuw overflows in {f.name}")
+                    regs[dst] = Poison(f"sub nuw overflows in {f.name}")
+                    return None
                 if "nsw" in flags and not (-(1 << (n - 1)) <= sa - sb < (1 << (n - 1))):
-                    raise UB(f"sub nsw overflows in {f.name}")
+                    regs[dst] = Poison(f"sub nsw overflows in {f.name}")
+                    return None
             elif o == "mul":
                 r = a * b
                 if "nsw" in flags and not (-(1 << (n - 1)) <= sa * sb < (1 << (n - 1))):
-                    raise UB(f"mul nsw overflows in {f.name}")
+                    regs[dst] = Poison(f"mul nsw overflows in {f.name}")
+                    return None
             elif o == "shl":
                 r = a << b
                 if "nuw" in flags and r > mask(n):
-                    raise UB(f"shl nuw overflows in {f.name}")
+                    regs[dst] = Poison(f"shl nuw overflows in {f.name}")
+                    return None
             else:
                 r = {"and": lambda: a & b, "or": lambda: a | b, "xor": lambda: a ^ b, "lshr": lambda: a >> b, "ashr": lambda: sa >> b, "udiv": lambda: a // b, "urem": lambda: a % b,
                      "sdiv": lambda: int(sa / sb) if sb else 0, "srem": lambda: sa - sb * int(sa / sb) if sb else 0}[o]()
@@ -1070,6 +1111,9 @@ class Machine:
             b = p.value(ty)
             a = s.op(regs, m, ty, a)
             b = s.op(regs, m, ty, b)
+            if isinstance(a, Poison) or isinstance(b, Poison):
+                regs[dst] = a if isinstance(a, Poison) else b
+                return None
             if isinstance(a, (Ptr, PtrIte)) or isinstance(b, (Ptr, PtrIte)):
                 if isinstance(a, PtrIte) or isinstance(b, PtrIte):
                     raise Unsupported("comparison of pointer-valued ite")
@@ -1097,6 +1141,10 @@ class Machine:
             c = s.op(regs, m, ct, c)
             a = s.op(regs, m, ty, a)
             b = s.op(regs, m, ty2, b)
+            if isinstance(c, Poison):
+                raise UB(f"select on poison ({c.why})")
+            if is_sym(c) and (isinstance(a, Poison) or isinstance(b, Poison)):
+                raise Unsupported("select with a symbolic condition and a poison arm")
             if is_sym(c):
                 if isinstance(a, (Ptr, PtrIte)) or isinstance(b, (Ptr, PtrIte)):
                     regs[dst] = a if (isinstance(a, Ptr) and isinstance(b, Ptr) and a == b) else PtrIte(c == 1, a, b)
@@ -1136,6 +1184,8 @@ class Machine:
                 return ("br", p.next())
             ct, c = p.tv()
             c = s.op(regs, m, ct, c)
+            if isinstance(c, Poison):
+                raise UB(f"branch on poison ({c.why}) in {f.name}")
             p.expect(",")
             p.expect("label")
             a = p.next()
@@ -1148,6 +1198,8 @@ class Machine:
         if o == "switch":
             ty, v = p.tv()
             v = s.op(regs, m, ty, v)
+            if isinstance(v, Poison):
+                raise UB(f"switch on poison ({v.why}) in {f.name}")
             p.expect(",")
             p.expect("label")
             dflt = p.next()
@@ -1202,6 +1254,9 @@ class Machine:
                 if not str(fp.r).startswith("fn:"):
                     raise OOB(f"call through data pointer {fp} in {f.name}")
                 callee = fp.r[3:]
+            if any(isinstance(a, Poison) for a in args) and not callee.startswith("@llvm."):
+                bad = next(a for a in args if isinstance(a, Poison))
+                raise UB(f"poison passed to {callee} ({bad.why})")
             r = s.call(callee, args, ats)
             if dst:
                 regs[dst] = r
@@ -1320,6 +1375,8 @@ class Machine:
                 x, y = vals[0][ins[0]], vals[1][ins[0]]
                 if isinstance(x, (Ptr, PtrIte)) or isinstance(y, (Ptr, PtrIte)):
                     regs[ins[0]] = x if (isinstance(x, Ptr) and isinstance(y, Ptr) and x == y) else PtrIte(cond, x, y)
+                elif isinstance(x, Poison) or isinstance(y, Poison):
+                    raise Unsupported("merge of a poison value at a join")
                 elif not is_sym(x) and not is_sym(y) and x == y:
                     regs[ins[0]] = x
                 else:
